@@ -24,11 +24,13 @@ MODELLED_NOT_VERIFIED = [
     "C02: float <-> text is Python's repr/float (lengths are opaque strings in the model); str.lower() of labels is modelled by ASCII "
     "case folding (the generators never produce non-ASCII case pairs); metadata comments/annotations are outside the statement",
 ]
-EXPLANATION = ("Theorems (Props/C02.lean): special_protected and the table facts by `decide` over the regenerated tables; token_roundtrip "
-               "(next (escape l ++ d :: rest) = l for every admissible label, consistent option triple and captured follow character); "
-               "readQuoted/readPlain lemmas; newick_tokens_roundtrip_partial (parse of the written token sequence gives the tree back, for "
-               "trees whose leaves all carry a tag or a length: anonymous leaves and the character-level glue over the whole statement are "
-               "covered by the correspondence and the oracle, not by the proof); rooting_roundtrip; NeXML/NEXUS wrappers by oracle only.")
+EXPLANATION = ("Theorems (Props/C02.lean, all about the definitions drv_c02 runs): special_protected and tokenizer_tables by `decide` over the "
+               "tables regenerated from the source; token_roundtrip(_kind): next(escape(l) ++ d :: rest) = l for every admissible label, consistent "
+               "option triple and captured follow character; statement_tokens: tokenizing the whole written statement gives back the emitted token "
+               "kinds and attaches the rooting/weight comments to the first token; newick_tokens_roundtrip_partial: the recursive-descent parser "
+               "inverts the writer callbacks (hypothesis LL: every leaf writes a tag or a length - anonymous leaves are covered by enumeration and "
+               "the oracle only); newick_roundtrip: parseText(writeTree t) = [decode(toRT t)] over the namespace of its taxon labels; carried_tree: "
+               "decode(toRT t) = t under the default label options; rooting_roundtrip. NEXUS block grammar and NeXML: real round-trip oracle only.")
 
 SCHEMAS = ("newick", "nexus", "nexml")
 NONASCII = u"éßñλЖ"          # e-acute, sharp s, n-tilde, lambda, Cyrillic ZHE (no case pairs among them)
@@ -587,9 +589,18 @@ def gen_text(rng):
 
 # ------------------------------------------------------------------ run / replay / search
 def run(ctx):
+    import time
     dendropy = __import__("dendropy")
     rng = ctx.rng
-    ctx.set_budget(35, 640)
+    # own clock: the budget counts from the start of the exploration (the Lean build before it may have been cold)
+    t0 = time.time()
+    budget = ctx.pick(32, 600)
+
+    def spent():
+        return time.time() - t0
+
+    def out_of_time():
+        return spent() >= budget
     pending = []
 
     def maybe_flush(limit=400):
@@ -601,7 +612,7 @@ def run(ctx):
     flush(ctx, pending)
     # label level
     for _ in range(ctx.pick(500, 6000)):
-        if ctx.out_of_time():
+        if spent() >= budget * 0.15:
             break
         ps, uu, pu = rng.choice(CONSISTENT) if rng.random() < 0.8 else tuple(rng.random() < 0.5 for _ in range(3))
         lab = gen_label(rng)
@@ -610,7 +621,7 @@ def run(ctx):
         maybe_flush()
     # token streams and malformed statements
     for _ in range(ctx.pick(600, 8000)):
-        if ctx.out_of_time():
+        if spent() >= budget * 0.3:
             break
         run_tokens(ctx, dendropy, "".join(rng.choice(TOK_ALPHA) for _ in range(rng.randint(0, 14))), rng.random() < 0.5, pending)
         run_parse_text(ctx, dendropy, gen_text(rng), gen_ropts(rng), pending)
@@ -619,9 +630,8 @@ def run(ctx):
     # round trips
     n = 0
     max_leaves = ctx.pick(8, 30)
-    share = ctx.pick(0.85, 0.6)
-    t_end = ctx.budget_s * share
-    while not ctx.out_of_time() and ctx.budget_s - ctx.time_left() < t_end and n < ctx.pick(15000, 200000):
+    t_end = budget * ctx.pick(1.0, 0.75)
+    while spent() < t_end and n < ctx.pick(25000, 400000):
         case = gen_case(rng, max_leaves=max_leaves if rng.random() < 0.8 else 3)
         run_roundtrip(ctx, dendropy, case, pending)
         n += 1
